@@ -629,6 +629,19 @@ impl<'c, 'a, 'ast> Visit<'ast> for BodyVisitor<'c, 'a> {
         }
     }
 
+    /// R2 on match arms (added for unit VSM: `#[cfg(curve25519_dalek_backend = "simd")] BackendKind::Avx2 => ..` in backend/mod.rs).
+    /// Before this, an arm attribute was copied through and evaluated by rustc with NO cfg set (i.e. always false), whatever the unit's
+    /// `//@cfg` said. Now the unit's cfg set decides: a cfg'd-out arm is deleted (incl. its trailing comma), a cfg'd-in arm loses the attribute.
+    fn visit_arm(&mut self, a: &'ast syn::Arm) {
+        if !a.attrs.is_empty() {
+            let (s, e) = self.cx.f.range(a.span());
+            if !self.cx.attrs(&a.attrs, (s, e), &[]) {
+                return;
+            }
+        }
+        syn::visit::visit_arm(self, a);
+    }
+
     fn visit_macro(&mut self, m: &'ast syn::Macro) {
         let name = m.path.segments.last().unwrap().ident.to_string();
         let (s, e) = self.cx.f.range(m.span());
